@@ -10,11 +10,12 @@ Open Scope Z_scope.
 
 (* what is observed around one processed request *)
 Record obs := mkObs {
-  o_err : bool; o_wrote : bool; o_st : status; o_vst : status; o_pods : list pod; o_pg : option pgphase }.
+  o_err : bool; o_wrote : bool; o_st : status; o_vst : status; o_pods : list pod; o_pg : option pgphase;
+  o_gave : bool }.   (* the request had used up its requeue budget and the controller gave up on it (error flag 2) *)
 
 Definition dObs : dec obs :=
-  let* _tag := dZ in let* e := dBool in let* wr := dBool in let* st := dStatus in let* cv := dStatus in
-  let* pods := dPods in let* pg := dOpt dPgPhase in ret (mkObs e wr st cv pods pg).
+  let* _tag := dZ in let* e := dZ in let* wr := dBool in let* st := dStatus in let* cv := dStatus in
+  let* pods := dPods in let* pg := dOpt dPgPhase in ret (mkObs (negb (e =? 0)) wr st cv pods pg (e =? 2)).
 
 (* the transition relation of state/*.go (reflexive) *)
 Definition allowed (p : phase) : list phase :=
@@ -70,8 +71,11 @@ Definition law_step (sp : spec) (r : req) (b a : obs) : bool :=
   Z.leb (st_version (o_st a)) (st_version (o_vst a)) &&
   (* what reaches the API server is the cache's status, or nothing *)
   (if o_wrote a && negb (o_err a) then (if status_eq_dec (o_st a) (o_vst a) then true else false) else true) &&
-  (* a failed reconciliation writes no (partial) status *)
-  implb (o_err a) (if status_eq_dec (o_st a) (o_st b) then true
+  (* a failed reconciliation writes no (partial) status; when the controller gives up on the request
+     (requeue budget used up) it sends TerminateJob through the job's current state, which may write:
+     then the API server shows what the cache holds; every clause above applies to that step as well *)
+  implb (o_gave a && o_wrote a) (if status_eq_dec (o_st a) (o_vst a) then true else false) &&
+  implb (o_err a && negb (o_gave a)) (if status_eq_dec (o_st a) (o_st b) then true
                    else phase_beq pb PhNone &&
                         if status_eq_dec (o_st a) (init_status sp (o_vst b)) then true else false) &&
   implb (negb (o_wrote a)) (if status_eq_dec (o_st a) (o_st b) then true else false).
